@@ -262,25 +262,46 @@ def run(ctx):
             ctx.ob("A2", b.defp, "udp-reply-key-from-session-user", loc(b.sp), ok, "datagram replies are sealed under session.user's key when present" if ok else "datagram replies ignore session.user")
 
     # ---------------- A3 who may construct ------------------------------------------------------------
+    # role: a "server codec" is code reached from a server Decoder::decode impl; anywhere else a relay item may only be re-wrapped, i.e. its
+    # operands derive from the payload of a relay item that was matched (in the same function or, for a helper, in every caller's flat view)
+    codec_fns = set()
+    for d in prog.methods_of_trait_impls("Decoder", "decode"):
+        if d.defp.startswith("octo_squirrel_server"):
+            codec_fns |= set(prog.flat(d.defp).origin)
+            codec_fns |= {x.defp for x in prog.family(d.root)}
+    variants = ("ConnectTcp", "RelayTcp", "RelayUdp")
+
+    def rewraps(body, blk, stmt):
+        for o in stmt["rv"]["ops"]:
+            p = op_place(o)
+            locs, _, _ = body.slice_back([p[0]]) if p else (set(), 0, 0)
+            for l in locs:
+                for d in body.defs().get(l, []):
+                    if d[0] == "assign" and d[3]["rv"]["k"] in ("use", "ref"):
+                        pp = op_place(d[3]["rv"]["op"]) if d[3]["rv"]["k"] == "use" else d[3]["rv"]["p"]
+                        if pp and any(e[0] == "downcast" and e[1] in variants for e in pp[1]):
+                            return True
+        return False
+
     n = 0
     for b in bodies:
         for blk in b.rpo():
-            for s in b.stmts(blk):
+            for si, s in enumerate(b.stmts(blk)):
                 if s["k"] == "assign" and s["rv"]["k"] == "agg" and s["rv"].get("def", "").endswith(RELAY_ENUM):
                     n += 1
-                    in_codec = any(k in b.defp for k in ("server::trojan", "server::vmess", "server::shadowsocks"))
+                    in_codec = b.defp in codec_fns or b.root in codec_fns
                     rewrap = False
                     if not in_codec:
-                        # operand derives from a binding of a matched relay item
-                        for o in s["rv"]["ops"]:
-                            p = op_place(o)
-                            locs, _, _ = b.slice_back([p[0]]) if p else (set(), 0, 0)
-                            for l in locs:
-                                for d in b.defs().get(l, []):
-                                    if d[0] == "assign" and d[3]["rv"]["k"] == "use":
-                                        pp = op_place(d[3]["rv"]["op"])
-                                        if pp and any(e[0] == "downcast" and e[1] in ("ConnectTcp", "RelayTcp", "RelayUdp") for e in pp[1]):
-                                            rewrap = True
+                        rewrap = rewraps(b, blk, s)
+                        if not rewrap:
+                            ctxs = prog.flat_contexts(b.defp)
+                            found = []
+                            for (fb, m) in ctxs:
+                                for fblk in m.get(blk, []):
+                                    st = fb.stmts(fblk)
+                                    if si < len(st) and st[si]["k"] == "assign" and st[si]["rv"]["k"] == "agg":
+                                        found.append(rewraps(fb, fblk, st[si]))
+                            rewrap = bool(found) and all(found)
                     ok = in_codec or rewrap
-                    ctx.ob("A3", b.defp, f"construct:{s['rv']['variant']}", loc(s["sp"]), ok, "constructed in a server codec" if in_codec else ("re-wraps a matched relay item" if rewrap else "relay item constructed outside the server codecs"))
+                    ctx.ob("A3", b.defp, f"construct:{s['rv']['variant']}", loc(s["sp"]), ok, "constructed in a server codec" if in_codec else ("re-wraps a matched relay item" if rewrap else "relay item constructed outside the server codecs from something that is not a matched relay item"))
     ctx.floor("A3", "relay item constructor sites", 8, n)
